@@ -406,18 +406,20 @@ class Respondent(httping.Parsent):
 
         self.headers = help.Hict()
 
-        # create generator
-        lineParser = httping.parseLine(raw=self.msg, eols=(CRLF, LF), kind="status line")
+        lineParser = None
         while True:  # parse until we get a non-100 status
             if self.closed and not self.msg:  # connection closed prematurely
                 raise httping.PrematureClosure("Connection closed unexpectedly"
                                                " while parsing response start line")
-
+            if lineParser is None:  # create generator, again after 100 continue
+                lineParser = httping.parseLine(raw=self.msg, eols=(CRLF, LF),
+                                               kind="status line")
             line = next(lineParser)
             if line is None:
                 (yield None)
                 continue
             lineParser.close()  # close generator
+            lineParser = None
 
             version, status, reason = httping.parseStatusLine(line)
             if status != httping.CONTINUE:  # 100 continue (with request or ignore)
